@@ -4,7 +4,7 @@
    aiotarstream.py + extract_tar_stream as they are now in /repo (after the fix: commits 733cb27, 9f2640a);
    [true] is the code before them.  A stream is the list of chunks the underlying reader delivers. *)
 From Coq Require Import List NArith Lia.
-From SF Require Import TarStream.Model TarStream.Proofs TarStream.Trunc TarStream.Roundtrip TarStream.Frombuf TarStream.RoundtripS.
+From SF Require Import TarStream.Model TarStream.Proofs TarStream.Trunc TarStream.Roundtrip TarStream.Frombuf TarStream.RoundtripS TarStream.Links TarStream.Prefix.
 Import ListNotations.
 Local Open Scope N_scope.
 
@@ -130,6 +130,57 @@ Theorem C23_roundtrip_string_field : forall s len,
   Forall (fun b => b <> 0) s -> lenN s <= len -> nts (stn s len) = s.
 Proof. exact nts_stn. Qed.
 
+(* ---- links (fix 35e756c): extract_tar_stream creates a symbolic link with the archived target byte for byte,
+   at dst/<member name relative to the root>; a hard link becomes a file with the content of the already
+   extracted member that its link name, taken relative to the root (relpath(linkname, basename(src))),
+   designates.  Any reader, any stream state, current and pre-fix tar reader alike. ---- *)
+Theorem C23_symlink_target_verbatim : forall St rd sk legacy fuel base bufsz h od r t t' r',
+  h_type h = T_SYM ->
+  extract_member St rd sk legacy fuel base bufsz h od r t = (Done, t', r') ->
+  exists p, rel_under base (h_name h) = Some p /\ p <> [] /\ t_get p t' = Some (ELink (h_link h)) /\ r' = r.
+Proof. exact symlink_target_verbatim. Qed.
+Theorem C23_hardlink_target_relative : forall St rd sk legacy fuel base bufsz h od r t t' r',
+  h_type h = T_LNK ->
+  extract_member St rd sk legacy fuel base bufsz h od r t = (Done, t', r') ->
+  exists p q t1 m0 content,
+    rel_under base (h_name h) = Some p /\ rel_under base (h_link h) = Some q /\
+    t_get q t1 = Some (EFile m0 content) /\ t_get p t' = Some (EFile (h_mode h) content) /\ r' = r.
+Proof. exact hardlink_target_relative. Qed.
+Example C23_links_example :
+  let base := [100] in
+  let r0 : rst bytes := {| pos := 0; und := [] |} in
+  let t0 : tree := [([], EDir 493); ([97;46;116], EFile 420 [97;98;99]); ([115], EDir 493)] in
+  let sym := extract_member bytes fread fskip false 3 base None (lk_hdr [100;47;108] T_SYM [97;46;116]) 0 r0 t0 in
+  let up := extract_member bytes fread fskip false 3 base None (lk_hdr [100;47;115;47;117] T_SYM [46;46;47;97;46;116]) 0 r0 t0 in
+  let hard := extract_member bytes fread fskip false 3 base None (lk_hdr [100;47;104] T_LNK [100;47;97;46;116]) 0 r0 t0 in
+  t_get [108] (snd (fst sym)) = Some (ELink [97;46;116])
+  /\ t_get [115;47;117] (snd (fst up)) = Some (ELink [46;46;47;97;46;116])
+  /\ t_get [104] (snd (fst hard)) = Some (EFile 420 [97;98;99]) /\ fst (fst hard) = Done.
+Proof. exact links_example. Qed.
+
+(* ---- truncation in general (same fuel for both runs; members_flat uses S (length stream), and out-of-fuel is
+   now a separate outcome FFuel/NxFuel -> Hang, no longer confused with Unsupported): reading ANY prefix of ANY
+   stream either fails with ReadError, or lists a prefix of the members the whole stream lists and stops either
+   exactly like the whole run or with a normal return.  C23_truncation_boundary says when that normal return with
+   members missing can happen: only when next(), called at a non-zero offset, got fewer than 512 bytes for the
+   header block (cut at a header boundary or inside a later header) — the known header-level leniency; a cut
+   anywhere else (data, padding, long-name payload, first header) is ReadError. ---- *)
+Theorem C23_truncation_prefix : forall fuel d k,
+  cut_ok (members bytes fread fskip false fuel 0 {| pos := 0; und := d |} [])
+         (members bytes fread fskip false fuel 0 {| pos := 0; und := takeN k d |} []).
+Proof. exact truncation_prefix. Qed.
+Theorem C23_truncation_boundary : forall fuel off rf rt h od no,
+  Sync rf rt ->
+  fst (next bytes fread fskip false fuel off rf) = NxMem h od no ->
+  fst (next bytes fread fskip false fuel off rt) = NxNone ->
+  lenient_end off rt.
+Proof. exact truncation_boundary. Qed.
+Example C23_truncation_prefix_example :
+  names (members_flat ex_dir) = (Done, [(d_, 0); (da, 700); (db, 5)])
+  /\ names (members_flat (takeN 2148 ex_dir)) = (Done, [(d_, 0); (da, 700)])
+  /\ fst (members_flat (takeN 1800 ex_dir)) = ReadError.
+Proof. split; [exact ex_dir_members|split; [exact ex_cut_in_header|exact ex_cut_in_padding]]. Qed.
+
 Print Assumptions C23_chunking. Print Assumptions C23_chunking_reference. Print Assumptions C23_chunking_members.
 Print Assumptions C23_read_is_the_python_loop. Print Assumptions C23_read_exact.
 Print Assumptions C23_no_partial_file. Print Assumptions C23_no_partial_member.
@@ -141,3 +192,5 @@ Print Assumptions C23_writer_padding_partial. Print Assumptions C23_writer_block
 Print Assumptions C23_writer_record_aligned_partial.
 Print Assumptions C23_roundtrip. Print Assumptions C23_roundtrip_chunked. Print Assumptions C23_roundtrip_header.
 Print Assumptions C23_roundtrip_octal_field. Print Assumptions C23_roundtrip_string_field.
+Print Assumptions C23_symlink_target_verbatim. Print Assumptions C23_hardlink_target_relative.
+Print Assumptions C23_truncation_prefix. Print Assumptions C23_truncation_boundary.
